@@ -5,7 +5,7 @@
 (* SubscribeToEventsServer streams are attached to the real gateway        *)
 (* handler; every observable step is one ndjson line, in the order of one  *)
 (* recorder mutex:                                                         *)
-(*   reset h | sub s | unsub s                                             *)
+(*   reset h | sub s | unsub s | end                                       *)
 (*   call w op k v t          a writer issues a request (t = rank of the   *)
 (*                            time just before)                            *)
 (*   sb s k kind val et etn infl   SendMsg entered on stream s with that   *)
@@ -13,49 +13,62 @@
 (*   se s                     SendMsg returned                             *)
 (*   ret w st t               the request returned status st at time t     *)
 (* The commit of a request is not observable: before every line each state *)
-(* may first commit any called request (closure).  The checker carries the *)
-(* SET of spec states that explain the lines so far (`poss`); a line that  *)
-(* no state explains is printed, the history is marked dead and the run    *)
-(* continues with the next history, so one TLC run judges every line.      *)
-(* TRACE_DEV = "" is the strict spec; "A+B" enables named deviations.      *)
+(* may first commit any called request (closure).  The checker carries,    *)
+(* for EVERY subset D of the open deviations (TRACE_DEV = "A+B+..."; the   *)
+(* empty subset is the strict spec), the SET of spec states that explain   *)
+(* the lines so far under D (`poss[m]`, m = bit mask of D + 1) and the     *)
+(* line at which that set became empty (`stuck[m]`, 0 = still alive).      *)
+(* When a history ends (next reset / end line) one JSON line reports       *)
+(* `stuck` for all subsets, so ONE TLC run judges every line of every      *)
+(* history against the strict spec and against every as-built variant.     *)
 (***************************************************************************)
 EXTENDS Events, Json, IOUtils
 
 Trace == ndJsonDeserialize(IOEnv.TRACE_FILE)
 DevName == IF "TRACE_DEV" \in DOMAIN IOEnv THEN IOEnv.TRACE_DEV ELSE ""
 Has(d) == \E i \in 1..(Len(DevName) - Len(d) + 1) : SubSeq(DevName, i, i + Len(d) - 1) = d
-TraceDev == {d \in {"NoopEvent", "ConcurrentSend", "TimeNanosAsSeconds", "DeleteUnguarded"} : Has(d)}
 
-VARIABLES l, poss, dead, hist
-tvars == <<l, poss, dead, hist>>
+AllDevs == <<"TimeNanosAsSeconds", "NoopEvent", "ConcurrentSend", "DeleteUnguarded">>
+Pow2 == <<1, 2, 4, 8, 16>>
+NMasks == Pow2[Len(AllDevs) + 1]
+\* subset number m (1..NMasks) stands for the deviations whose bit is set in m - 1
+DevOf(m) == {AllDevs[i] : i \in {j \in DOMAIN AllDevs : ((m - 1) \div Pow2[j]) % 2 = 1}}
+Open(m) == \A d \in DevOf(m) : Has(d)
 
-TraceInit == l = 1 /\ poss = {} /\ dead = FALSE /\ hist = 0
+VARIABLES l, poss, stuck, hist
+tvars == <<l, poss, stuck, hist>>
 
-Commits(S) == S \cup UNION {UNION {DoCommit(st, w) : w \in Writers} : st \in S}
-RECURSIVE Closure(_, _)
-Closure(S, n) == IF n = 0 THEN S ELSE Closure(Commits(S), n - 1)
+TraceInit == l = 1 /\ poss = [m \in 1..NMasks |-> {}] /\ stuck = [m \in 1..NMasks |-> 0] /\ hist = 0
 
-After(S, e) ==
-  LET C == Closure(S, Cardinality(Writers)) IN
+Commits(dev, S) == S \cup UNION {UNION {DoCommit(dev, st, w) : w \in Writers} : st \in S}
+RECURSIVE Closure(_, _, _)
+Closure(dev, S, n) == IF n = 0 THEN S ELSE Closure(dev, Commits(dev, S), n - 1)
+
+After(dev, S, e) ==
+  LET C == Closure(dev, S, Cardinality(Writers)) IN
   CASE e.ev = "sub"   -> UNION {DoSub(st, e.s) : st \in C}
     [] e.ev = "unsub" -> UNION {DoUnsub(st, e.s) : st \in C}
     [] e.ev = "call"  -> UNION {DoCall(st, e.w, e.op, e.k, e.v, e.t) : st \in C}
-    [] e.ev = "sb"    -> UNION {UNION {DoSendBegin(st, w, e.s, [k |-> e.k, kind |-> e.kind, val |-> e.val, et |-> e.et, etn |-> e.etn]) : w \in Writers} : st \in C}
+    [] e.ev = "sb"    -> UNION {UNION {DoSendBegin(dev, st, w, e.s, [k |-> e.k, kind |-> e.kind, val |-> e.val, et |-> e.et, etn |-> e.etn]) : w \in Writers} : st \in C}
     [] e.ev = "se"    -> UNION {UNION {DoSendEnd(st, w, e.s) : w \in Writers} : st \in C}
     [] e.ev = "ret"   -> UNION {DoRet(st, e.w, e.st, e.t) : st \in C}
     [] OTHER -> {}
 
+\* -1: the subset contains a deviation that is not open (not evaluated)
+Report == IF hist = 0 THEN TRUE ELSE PrintT(ToJson([h |-> hist, stuck |-> stuck]))
+
 Step ==
   /\ l <= Len(Trace) /\ l' = l + 1
   /\ LET e == Trace[l] IN
-     IF e.ev = "reset"
-       THEN poss' = {Init0} /\ dead' = FALSE /\ hist' = e.h
+     IF e.ev \in {"reset", "end"}
+       THEN /\ Report
+            /\ poss' = [m \in 1..NMasks |-> IF Open(m) THEN {Init0} ELSE {}]
+            /\ stuck' = [m \in 1..NMasks |-> IF Open(m) THEN 0 ELSE -1]
+            /\ hist' = IF e.ev = "reset" THEN e.h ELSE 0
        ELSE /\ UNCHANGED hist
-            /\ IF dead THEN UNCHANGED <<poss, dead>>
-               ELSE LET N == After(poss, e) IN
-                    IF N # {} THEN poss' = N /\ UNCHANGED dead
-                    ELSE /\ PrintT(ToJson([fail |-> l, h |-> hist, ev |-> e.ev]))
-                         /\ dead' = TRUE /\ poss' = {}
+            /\ LET N == [m \in 1..NMasks |-> IF stuck[m] = 0 THEN After(DevOf(m), poss[m], e) ELSE {}]
+               IN /\ poss' = N
+                  /\ stuck' = [m \in 1..NMasks |-> IF stuck[m] = 0 /\ N[m] = {} THEN l ELSE stuck[m]]
 
 TraceSpec == TraceInit /\ [][Step]_tvars
 
